@@ -78,6 +78,16 @@ CLAIMS = {
             "forward m to m and never cross key/value, a direction switch advances every child before flipping the comparator "
             "and rebuilding the heap, every seek positions every child, pruning filters by timestamp <= snapshot and recognises "
             "tombstones.  Does not decide the combinator equivalences for all inputs.", "§4 C11"),
+    "C07": ("who-frees analysis over Drop impls (GUARDED uniqueness test or pointee ownership), ESCAPE of the VersionRef, ORIGIN pipeline chains, ADT field-type facts",
+            "Decides the ownership/escape structure a memory-safe snapshot needs: shared memory is freed only by the Arc's pointee or "
+            "behind a uniqueness test, iterators hold a clone of the list's Arc, the returned scan cursor owns the VersionRef that "
+            "pins its files, every scan pipeline prunes at the captured timestamp, cursors have no borrowed fields.  Does not "
+            "decide which schedules would free memory under a live cursor.", "§4 C07"),
+    "C17": ("atomic-ordering operand table with identity-only slice for Relaxed loads, ORDER with cycles (initialise before publish), who-may-call for deref/free",
+            "Decides publication order and confinement: Release stores / AcqRel CAS / Acquire loads on every pointer that can be "
+            "dereferenced, the successor is stored into a new node before every linking CAS (on each retry, same observed value), "
+            "raw derefs only in node_ptr::deref, frees only in the last owner's Drop.  Does not decide lost inserts or ordered "
+            "iteration under every interleaving.", "§4 C17"),
 }
 
 NA_DEFAULT = "check not built yet (DESIGN.md §8 build order); will be claimed once its rule set is armed"
